@@ -77,9 +77,9 @@ type c11client struct {
 
 const c11Burst = 25
 
-func c11Body(t *testing.T, depth, nclients int) func(c *verifeng.Chooser) {
+func c11Body(t *testing.T, depth, nclients int, bursts bool) func(c *verifeng.Chooser) {
 	return func(c *verifeng.Chooser) {
-		out := verifbubble.Run(t, func() { c11Run(c, depth, nclients) })
+		out := verifbubble.Run(t, func() { c11Run(c, depth, nclients, bursts) })
 		switch {
 		case out.Panic != nil:
 			if ie, ok := out.Panic.(verifeng.InfraError); ok {
@@ -96,7 +96,11 @@ func c11Body(t *testing.T, depth, nclients int) func(c *verifeng.Chooser) {
 	}
 }
 
-func c11Run(c *verifeng.Chooser, depth, nclients int) {
+func c11Run(c *verifeng.Chooser, depth, nclients int, bursts bool) {
+	var burst *verifbubble.Burst
+	if bursts {
+		burst = verifbubble.NewBurst(c)
+	}
 	src := &c11src{ch: make(chan blockntfns.BlockNtfn)}
 	m := blockntfns.NewSubscriptionManager(src)
 	m.Start()
@@ -219,6 +223,7 @@ func c11Run(c *verifeng.Chooser, depth, nclients int) {
 
 	for d := 0; d < depth && !c.Failed(); d++ {
 		verifbubble.Wait()
+		burst.End()
 		type ev struct {
 			name string
 			run  func() bool
@@ -232,7 +237,7 @@ func c11Run(c *verifeng.Chooser, depth, nclients int) {
 			}
 			menu = append(menu, ev{"the backlog read returns", release})
 			e := menu[c.ChooseFree(len(menu), "event")]
-			c.Step("%s", e.name)
+			c.Step("%s%s", e.name, burst.Begin())
 			if !e.run() {
 				return
 			}
@@ -336,7 +341,7 @@ func c11Run(c *verifeng.Chooser, depth, nclients int) {
 			break
 		}
 		e := menu[c.ChooseFree(len(menu), "event")]
-		c.Step("%s", e.name)
+		c.Step("%s%s", e.name, burst.Begin())
 		if !e.run() {
 			return
 		}
@@ -345,6 +350,9 @@ func c11Run(c *verifeng.Chooser, depth, nclients int) {
 			return
 		}
 	}
+	verifbubble.Wait()
+	burst.End()
+	burst.Off()
 	if c.Failed() {
 		return
 	}
@@ -410,7 +418,7 @@ func TestVFXC11(t *testing.T) {
 		}
 		fmt.Sscanf(v.Config, "depth=%d clients=%d", &depth, &ncl)
 		e := verifeng.FromEnv(v.Harness, v.Config)
-		_, x, err := e.ReplayFile(rp, c11Body(t, depth, ncl))
+		_, x, err := e.ReplayFile(rp, c11Body(t, depth, ncl, strings.Contains(v.Config, "in-burst")))
 		if err != nil {
 			t.Fatal(err)
 		}
@@ -425,7 +433,17 @@ func TestVFXC11(t *testing.T) {
 		return
 	}
 	e := verifeng.FromEnv("C11-subscriptions", fmt.Sprintf("depth=%d clients=%d burst=%d", depth, ncl, c11Burst))
-	e.Run(c11Body(t, depth, ncl))
+	e.Run(c11Body(t, depth, ncl, false))
+	if err := verifeng.AppendResult(&e.Res); err != nil {
+		t.Fatal(err)
+	}
+	// the order inside a burst as a further dimension (DESIGN 3.7): every
+	// history up to a smaller depth with at most one scheduler or select
+	// deviation
+	bd := depth - 2
+	e = verifeng.FromEnv("C11-subscriptions", fmt.Sprintf("depth=%d clients=%d burst=%d in-burst deviations<=1", bd, ncl, c11Burst))
+	e.MaxDev = 1
+	e.Run(c11Body(t, bd, ncl, true))
 	if err := verifeng.AppendResult(&e.Res); err != nil {
 		t.Fatal(err)
 	}
